@@ -1,8 +1,8 @@
 CONSTANTS
   RATE = 8
   WIDTH = 12
-  Mutants = {{"constraint_evals"}}
-  EncodeMutant = "none"
+  Mutants = {{}}
+  EncodeMutant = "drops_final_bits"
   ConfigSet = "one"
 INIT Init
 NEXT Next
